@@ -31,8 +31,17 @@
 //!       everything downstream is recomputed — the prover "altering / resetting the sponge
 //!       state between two permutations" for the part of the state that never lives in a
 //!       witness slot (the rate limbs do, class F2 covers them);
+//!   F5  every input limb of every permutation row that has NO witness slot (`vpe3`'s
+//!       `enumerate_f5`): on a `new_start` row an un-fed limb is the executor's implicit zero
+//!       (plus the absorb-length tag on D=1 rows) — role `unfed-input[sponge-start,rate |
+//!       capacity@row0 | capacity]`; on a chained row it is the previous row's output — role
+//!       `inherited-input[sponge]`. The limb takes value+1, the row is RE-EXECUTED by the
+//!       repository's executor from the deviated state (the committed row carries the deviated
+//!       input and its true permutation), outputs are chained / exposed / propagated, public
+//!       outputs re-chosen. This is the prover "choosing a part of the sponge state" that the
+//!       challenger assumes to be zero: initial capacity, zero padding of a partial absorb;
 //!   H   the honest trace itself (no deviation).
-//! Thorough additionally applies F2–F4 with the top basis element as delta for histories of
+//! Thorough additionally applies F2–F5 with the top basis element as delta for histories of
 //! length ≤ 3. (F1 on permutation / recompose cells cannot change the verdict of this oracle:
 //! with the Public table untouched the committed statement stays true — not enumerated.)
 //!
@@ -61,7 +70,9 @@
 //! `unbound:<family>:<clause>:<class>:<table>:<port role>:<what the deviated value carries>`
 //! — family = permutation packing (d4 | d1perm) + recompose table + coefficient-lookups flag;
 //! "carries" = provenance of the deviated slot in challenger terms (observed, const,
-//! rate-out[bus], capacity-out[hidden], coeff-of(…), bit-of(…), recomposed, alu.<kind>);
+//! rate-out[bus], capacity-out[hidden], coeff-of(…), bit-of(…), recomposed, alu.<kind>; for F5
+//! `implicit-zero[no-slot]` / `chained-state[no-slot]`, the port role names the row mode and
+//! whether the limb is rate, capacity of table row 0, or capacity of a later row);
 //! never a history, an op index, a limb or a field.
 //!
 //! ## Order and budget
@@ -621,7 +632,8 @@ struct Fx<B: Cfg> {
     prove_all: bool,
 }
 
-/// Thorough tier: every limb cell of the Public table (F1) and F3 on every public slot.
+/// Thorough tier: every limb cell of the Public table (F1), F3 on every public slot, every
+/// slot-less permutation input limb (F5; quick: first and last limb of every (row, role) group).
 /// Quick tier: limb-0 cells only (a non-base observed value is out of the property's domain,
 /// a non-base sampled output is the same forgery as its limb-0 variant), F3 on observed publics.
 static FULL_PUBLIC_FAULTS: AtomicBool = AtomicBool::new(true);
@@ -818,6 +830,17 @@ impl<B: Cfg> Fx<B> {
                 let s = self.fx.site(f);
                 let prov = match f {
                     Fault::F2 { slot, .. } | Fault::F3 { slot, .. } => self.prov(*slot, 0),
+                    // F5: the limb has no witness slot; what it carries is fixed by the row mode
+                    // (the role already says rate / capacity / first table row)
+                    Fault::F4 { .. } if f.as_f5().is_some() => {
+                        if s.role.starts_with("unfed-input") {
+                            "implicit-zero[no-slot]".into()
+                        } else if s.role.starts_with("inherited-input") {
+                            "chained-state[no-slot]".into()
+                        } else {
+                            "?".into()
+                        }
+                    }
                     Fault::F4 { op, port, .. } => {
                         self.port_slot(*op, *port).map(|s| self.prov(s.0, 0)).unwrap_or_else(|| "?".into())
                     }
@@ -879,6 +902,26 @@ impl<B: Cfg> DynFx for Fx<B> {
                 }
             };
             if keep {
+                v.push(Dev::Fault(f));
+            }
+        }
+        // F5: every permutation row x every input limb WITHOUT a witness slot (un-fed limb of a
+        // new_start row = the executor's implicit zero / absorb-length tag; un-fed limb of a
+        // chained row = the previous row's output) x delta unit of the permutation packing
+        // (quick: the first and the last slot-less limb of every (row, role) group — the limbs of
+        // one group are treated alike by executor and AIR; thorough: every limb)
+        let f5 = self.fx.enumerate_f5(units);
+        let mut span: BTreeMap<(usize, String), (usize, usize)> = BTreeMap::new();
+        for f in &f5 {
+            if let Some((op, limb, _)) = f.as_f5() {
+                let e = span.entry((op, self.fx.site(f).role)).or_insert((limb, limb));
+                *e = (e.0.min(limb), e.1.max(limb));
+            }
+        }
+        for f in f5 {
+            let Some((op, limb, _)) = f.as_f5() else { continue };
+            let ends = span.get(&(op, self.fx.site(&f).role)).copied().unwrap_or((limb, limb));
+            if full || limb == ends.0 || limb == ends.1 {
                 v.push(Dev::Fault(f));
             }
         }
@@ -1199,6 +1242,8 @@ fn main() {
     let mut skipped_cfg: BTreeMap<String, String> = BTreeMap::new();
     let mut skipped_count: BTreeMap<String, u64> = BTreeMap::new();
     let mut distinct_statements: HashSet<String> = HashSet::new();
+    // class -> family -> [evaluated, changed the trace, inconsistent statement decided, accepted]
+    let mut by_class: BTreeMap<String, BTreeMap<String, [u64; 4]>> = BTreeMap::new();
 
     // level by level (shortest histories first, all configurations interleaved): a cut by the
     // wall-clock budget removes the longest histories, never a configuration
@@ -1304,6 +1349,13 @@ fn main() {
                     f.family(), e.class, e.table, e.role, e.prov, e.outcome()
                 ));
             }
+            {
+                let c = by_class.entry(e.class.clone()).or_default().entry(f.family().to_string()).or_insert([0; 4]);
+                c[0] += 1;
+                c[1] += !matches!(e.status, Status::Noop | Status::Inapplicable(_)) as u64;
+                c[2] += (e.candidate() && matches!(e.status, Status::Proved(_))) as u64;
+                c[3] += e.violation() as u64;
+            }
             match &e.status {
                 Status::Noop => noops += 1,
                 Status::Inapplicable(_) => inapplicable += 1,
@@ -1402,7 +1454,7 @@ fn main() {
     let cov = json!({
         "evaluations": evaluations,
         "distinct_nontrivial": candidates,
-        "rule": "one evaluation = one single deviation (H honest / F2 slot with forward propagation / F4 row-local port deviation with propagation / F3 public slot in all rows without propagation / F1 Public-table cell / P permutation closure deviating on call k limb j with in-table chaining) applied to the honest traces of the circuit the real CircuitChallenger builds for one history; deviations are pairwise distinct by construction (every slot, port, cell, (call, limb) once per delta unit). Non-trivial = the deviation really changes the committed statement into an INCONSISTENT one (a committed sampled challenge differs from the native challenge of the committed observed values) AND the real prover+verifier decided it: a sound transcript must reject exactly these. Deviations that leave the trace unchanged (noop) or yield a consistent statement are counted separately and (unless --opt prove=all) not proved, because their verdict cannot change the oracle's answer",
+        "rule": "one evaluation = one single deviation (H honest / F2 slot with forward propagation / F4 row-local port deviation with propagation / F3 public slot in all rows without propagation / F1 Public-table cell / F5 slot-less input limb of a permutation row deviated, the row re-executed by the repository's executor and its outputs propagated / P permutation closure deviating on call k limb j with in-table chaining) applied to the honest traces of the circuit the real CircuitChallenger builds for one history; deviations are pairwise distinct by construction (every slot, port, cell, (call, limb) once per delta unit). Non-trivial = the deviation really changes the committed statement into an INCONSISTENT one (a committed sampled challenge differs from the native challenge of the committed observed values) AND the real prover+verifier decided it: a sound transcript must reject exactly these. Deviations that leave the trace unchanged (noop) or yield a consistent statement are counted separately and (unless --opt prove=all) not proved, because their verdict cannot change the oracle's answer",
         "samples": *samples.lock().unwrap(),
         "exhaustive": exhaustive,
         "depth_bound": depth,
@@ -1427,6 +1479,13 @@ fn main() {
         "noop_deviations_equal_to_honest": noops,
         "inapplicable_deviations": inapplicable,
         "oracle_violation_but_vpe3_predicate_holds": crosscheck_bad,
+        "by_class": by_class.iter().map(|(c, fams)| {
+            let tot = fams.values().fold([0u64; 4], |a, x| [a[0] + x[0], a[1] + x[1], a[2] + x[2], a[3] + x[3]]);
+            let row = |x: &[u64; 4]| json!({"evaluated": x[0], "trace_changed": x[1], "inconsistent_statement_decided": x[2], "accepted": x[3]});
+            let mut o = row(&tot);
+            o["per_family"] = Value::Object(fams.iter().map(|(k, x)| (k.clone(), row(x))).collect());
+            (c.clone(), o)
+        }).collect::<vpcore::serde_json::Map<String, Value>>(),
         "histogram_family_class_outcome": histo.to_json(),
         "histogram_family_site_outcome": site_histo.to_json(),
         "cases": fixtures_json,
